@@ -381,7 +381,14 @@ scpi_bool_t compareStrAndNum(const char * str1, size_t len1, const char * str2, 
     if (SCPIDEFINE_strncasecmp(str1, str2, len1) == 0) {
         result = TRUE;
 
-        if (num) {
+        for (i = len1; i < len2; i++) {
+            if (!isdigit((int) str2[i])) {
+                result = FALSE;
+                break;
+            }
+        }
+
+        if (result && num) {
             if (len1 == len2) {
                 /* *num = 1; */
             } else {
@@ -391,13 +398,6 @@ scpi_bool_t compareStrAndNum(const char * str1, size_t len1, const char * str2, 
                     result = FALSE;
                 } else {
                     *num = tmpNum;
-                }
-            }
-        } else {
-            for (i = len1; i < len2; i++) {
-                if (!isdigit((int) str2[i])) {
-                    result = FALSE;
-                    break;
                 }
             }
         }
